@@ -40,7 +40,7 @@ def changedElsewhere : Nat → List (Bytes × Val) → List (Bytes × Val) → L
         | _, _ => b.2.show != a.2.show
 
 def runPath (rowS op pathS valS extS implS : String) : Result :=
-  let env : Env := ⟨genTables, parseExt extS⟩
+  let env : Env := ⟨drvTables, parseExt extS⟩
   match rowOf rowS, unhexTok pathS with
   | some row, some path =>
     if implS.startsWith "panic" then ⟨"P", s!"path {op} {pathS} on [{rowS}]: {implS} violates C18: key=panic"⟩ else
@@ -151,7 +151,7 @@ def runPathDoc (docS pathS implS : String) : Result :=
     against the model; C17's oracle: no panic, and the result is of the getter's own type (the value or
     the zero value — absent or unconvertible data never surface any other way). -/
 def runGetter (rowS name keyS extS implS : String) : Result :=
-  let env : Env := ⟨genTables, parseExt extS⟩
+  let env : Env := ⟨drvTables, parseExt extS⟩
   if implS.startsWith "panic" then ⟨"P", s!"{name}({keyS}) on [{rowS}]: {implS} violates C17: key=panic"⟩ else
   match rowOf rowS, parseKey keyS, Dyn.parse? implS with
   | some row, some k, some impl =>
